@@ -86,24 +86,7 @@ def run(ck):
         bad = T.t2_all_exits(hb, [0], dc, exits=okr) if dc and okr else ([0] if not dc else None)
         ck.verdict(bad is None, "4", "T2-all-exits", hb, "Ok=>dispatcher-asked", "every Ok return of %s has called the dispatcher's %s" % (q, meth), "%s can return Ok without calling the dispatcher's %s (a shortcut taken from bookkeeping kept beside the dispatcher): when that bookkeeping is stale the call silently does nothing - the fd stays in (or out of) the poller" % (q, meth), site=hb.where(), path=path_descr(hb, bad) if bad else None)
 
-    # .. and the dispatcher really asks the source: once its cell could be borrowed, every path through
-    # DispatcherInner::{register, reregister, unregister} calls the source's method of the same name (no "registered"
-    # flag kept beside the source decides to skip it: reregister() of a timer, a TransientSource or a composite source
-    # effectively registers, so such a flag goes stale and a later disable() silently does nothing)
-    for meth in ("register", "reregister", "unregister"):
-        q = "<RefCell<DispatcherInner> as EventDispatcher>::" + meth
-        db = ck.opt_body(q)
-        if db is None:
-            ck.anchor_missing("4", "T2-all-exits", q)
-            continue
-        sc_ = [c.bb for c in T.calls(db, name=meth, trait="EventSource", self_kind=("param", "alias")) if not db.is_cleanup(c.bb)]
-        tb_ = T.calls(db, name=("try_borrow_mut", "borrow_mut"), path="RefCell")
-        starts = []
-        for t_ in tb_:
-            ok_e, err_e, _d = T.result_split(db, t_.bb)
-            starts += [x for _, x in ok_e] if ok_e else [t_.to]
-        bad = T.t2_all_exits(db, starts or [0], sc_) if sc_ else [0]
-        ck.verdict(bad is None, "4", "T2-all-exits", db, "dispatcher-asked=>source-asked", "every path on which the dispatcher could be borrowed calls the source's %s" % meth, "%s can return without calling the source's %s although the dispatcher was not busy: the request is silently dropped (a disabled-then-updated timer keeps firing after the next disable())" % (q, meth), site=db.where(), path=path_descr(db, bad) if bad and bad != [0] else None)
+    dispatcher_state_protocol(ck, "4")
 
     # ---- clause 5: shared necessary conditions ---------------------------------------------------------------
     from props import C14, C15, C01
@@ -121,3 +104,157 @@ def run(ck):
     _m = lambda n: _il.import_module('props.' + n)
     _c7.import_results(ck, _m("C05"), "5", "Timer", "3")  # a repeating timer re-arms itself (its self-disable is not swallowed by a returned Reregister)
 
+
+
+
+def dispatcher_state_protocol(ck, C):
+    """DispatcherInner::{register, reregister, unregister} against the source they wrap.
+
+    register / unregister always ask the source (once the cell could be borrowed). reregister asks it *exactly when the
+    source is registered*: `update()` on a disabled source must not reach a source's reregister, because for a timer, a
+    TransientSource or any source written as `unregister; register` that call arms it - the disabled source fires. So the
+    dispatcher has to know whether it is registered: a bool field that register sets (only after the source's register
+    succeeded), unregister clears (on every path that asked the source), nothing else writes, and that guards the
+    source call of reregister. The same exactness is what makes a skip sound: a `registered` flag that one of the three
+    methods forgets goes stale and a later disable() / update() silently does nothing."""
+    f = ck.facts
+    Q = "<RefCell<DispatcherInner> as EventDispatcher>::"
+    bodies = {}
+    for meth in ("register", "reregister", "unregister"):
+        db = ck.opt_body(Q + meth)
+        if db is None:
+            ck.anchor_missing(C, "T2-all-exits", Q + meth)
+            return
+        bodies[meth] = db
+
+    def source_calls(db, meth):
+        return [c for c in T.calls(db, name=meth, trait="EventSource", self_kind=("param", "alias")) if not db.is_cleanup(c.bb)]
+
+    def borrowed_starts(db):
+        starts = []
+        for t_ in T.calls(db, name=("try_borrow_mut", "borrow_mut"), path="RefCell"):
+            ok_e, err_e, _d = T.result_split(db, t_.bb)
+            starts += [x for _, x in ok_e] if ok_e else [t_.to]
+        return starts or [0]
+
+    adt = next((a for pth, a in f.adts.items() if pth.endswith("::DispatcherInner") or pth == "sources::DispatcherInner"), None)
+    bool_fields = [fl["name"] for v in (adt or {}).get("variants", []) for fl in v.get("fields", []) if fl.get("ty") is not None and f.types[fl["ty"]]["s"] == "bool"]
+
+    def const_stores(db, fld, val):
+        return [i for i, j, st in T.stores_to_field(db, fld) if not db.is_cleanup(i) and st["rv"]["r"] == "use" and T.const_value(db, st["rv"]["o"], 8) == val]
+
+    flags = [fl for fl in bool_fields if const_stores(bodies["register"], fl, 1) and const_stores(bodies["unregister"], fl, 0)]
+
+    def flag_edges(db, want):
+        out = []
+        for sw in T.switches_on_expr(db, lambda e: e[0] in ("place", "call")):
+            kind, aps = T.switch_reads(db, sw)
+            if kind != "place":
+                continue
+            names = {x[1:] for root, path in aps for x in path[-1:] if isinstance(x, str) and x.startswith(".")}
+            if names & set(flags):
+                out += T.edges_of_value(db, sw, want)
+        return out
+
+    for meth in ("register", "reregister", "unregister"):
+        db = bodies[meth]
+        sc = source_calls(db, meth)
+        starts = borrowed_starts(db)
+        if not sc:
+            ck.verdict(False, C, "T2-all-exits", db, "dispatcher-asked=>source-asked", "", "%s%s never calls the source's %s" % (Q, meth, meth), site=db.where())
+            continue
+        bad = T.t2_all_exits(db, starts, [c.bb for c in sc])
+        skip_ok = False
+        if bad is not None and meth != "register" and flags:
+            # the only way around the source is the 'not registered' edge of the state flag
+            bad2 = T.t2_all_exits(db, starts, [c.bb for c in sc], removed_edges=flag_edges(db, False))
+            skip_ok = bad2 is None
+        ck.verdict(bad is None or skip_ok, C, "T2-all-exits", db, "dispatcher-asked=>source-asked", "every path on which the dispatcher could be borrowed calls the source's %s%s" % (meth, " (or leaves on the 'not registered' edge of its state flag)" if skip_ok else ""), "%s%s can return without calling the source's %s although the dispatcher was not busy%s: the request is silently dropped (a disabled-then-updated timer keeps firing after the next disable())" % (Q, meth, meth, "" if meth == "register" or not flags else " and the way around it is not the 'not registered' edge of a state flag"), site=db.where(), path=path_descr(db, bad) if bad and bad != [0] else None)
+
+    # reregister only when registered
+    rr = bodies["reregister"]
+    sc = source_calls(rr, "reregister")
+    if sc:
+        tr_e = flag_edges(rr, True) if flags else []
+        guarded = bool(tr_e) and all(T.reachable_only_via(rr, c.bb, tr_e) for c in sc)
+        ck.verdict(guarded, C, "T4-state-guard", rr, "reregister-only-when-registered", "the source's reregister is reached only on the 'registered' edge of the dispatcher's state flag (%s)" % ", ".join(flags), "update() (and a Reregister post-action) reaches the source's reregister whether or not the source is registered: a disabled timer - or any source whose reregister is `unregister; register`, or a TransientSource holding one - is armed again by update() and its callback runs although the source is disabled", site=rr.where(sc[0].bb))
+    if not flags:
+        return
+    # the flag is exact
+    rg, ur = bodies["register"], bodies["unregister"]
+    for fl in flags:
+        sc = source_calls(rg, "register")
+        ok_edges = []
+        for c in sc:
+            ok_e, err_e, _d = T.result_split(rg, c.bb)
+            ok_edges += ok_e
+        tstores = const_stores(rg, fl, 1)
+        only_after_success = bool(ok_edges) and all(T.reachable_only_via(rg, i, ok_edges) for i in tstores)
+        okr = [i for i, j, st in rg.statements() if st["s"] == "assign" and st["pl"]["l"] in T.ret_locals(rg) and st["rv"]["r"] == "agg" and st["rv"].get("variant") == "Ok" and not rg.is_cleanup(i)]
+        bad = T.t2_all_exits(rg, [x for _, x in ok_edges], tstores, exits=okr or None) if ok_edges else [0]
+        ck.verdict(only_after_success and bad is None, C, "T4-state-guard", rg, "registered:=true<=>source-registered:" + fl, "`%s` is set on every successful path of register and only after the source's register succeeded" % fl, "DispatcherInner::register does not set `%s` exactly when the source's register succeeded: the flag that guards update() is wrong (an enabled source ignores update(), or a source whose registration failed is treated as registered)" % fl, site=rg.where(), path=path_descr(rg, bad) if bad and bad != [0] else None)
+        sc = source_calls(ur, "unregister")
+        fstores = const_stores(ur, fl, 0)
+        bad = T.t2_all_exits(ur, borrowed_starts(ur), fstores, removed_edges=flag_edges(ur, False))
+        ck.verdict(bad is None, C, "T4-state-guard", ur, "unregistered=>registered:=false:" + fl, "`%s` is cleared on every path of unregister on which the dispatcher could be borrowed" % fl, "DispatcherInner::unregister can ask the source to unregister without clearing `%s`: a later update() re-arms the disabled source" % fl, site=ur.where(), path=path_descr(ur, bad) if bad else None)
+        others = []
+        for b in f.bodies.values():
+            for i, j, st in T.stores_to_field(b, fl):
+                if b.is_cleanup(i):
+                    continue
+                if f.adt_path(f.peel_refs(b.local_ty(st["pl"]["l"]))) not in (None,) and "DispatcherInner" not in str(f.adt_path(f.peel_refs(b.local_ty(st["pl"]["l"])))):
+                    continue
+                if b.qual == rg.qual and i in tstores:
+                    continue
+                if b.qual == ur.qual and i in fstores:
+                    continue
+                others.append("%s (%s)" % (b.qual, b.where(i)))
+        ck.verdict(not others, C, "T7-who-may-write", rg, "state-flag-written-only-by-register/unregister:" + fl, "`%s` is written by register (true) and unregister (false) only" % fl, "`%s` is also written in %s: the state that guards update() no longer follows the registration" % (fl, others), site=rg.where())
+
+
+
+def reregister_runs_only_when_registered(ck):
+    """True when the dispatcher's state protocol holds on this tree: reregister reaches the source only while it is
+    registered, and the flag that says so is exact (used by rules whose obligation only exists for an unregistered
+    source reaching reregister)"""
+    cache = ck.facts.__dict__.setdefault("_c07_state_protocol", {})
+    if "v" not in cache:
+        sub = type(ck)(ck.prop, ck.facts, ck.config, ck.tier)
+        sub.nested = True
+        sub._summaries = ck._summaries
+        sub._flows = ck._flows
+        try:
+            dispatcher_state_protocol(sub, "x")
+            rel = [r for r in sub.results if any(r["instance"].startswith(p_) for p_ in ("reregister-only-when-registered", "registered:=true<=>", "unregistered=>registered:=false", "state-flag-written-only"))]
+            import core as _core
+
+            cache["v"] = len(rel) >= 4 and all(r["verdict"] == _core.OK for r in rel)
+        except Exception:
+            cache["v"] = False
+    return cache["v"]
+
+
+
+def state_flag_edges(ck, db, want):
+    """edges of `db` taken when the dispatcher's exact 'registered' flag has the value `want`"""
+    f = ck.facts
+    Q = "<RefCell<DispatcherInner> as EventDispatcher>::"
+    rg, ur = ck.opt_body(Q + "register"), ck.opt_body(Q + "unregister")
+    if rg is None or ur is None:
+        return []
+    adt = next((a for pth, a in f.adts.items() if pth.endswith("::DispatcherInner") or pth == "sources::DispatcherInner"), None)
+    bool_fields = [fl["name"] for v in (adt or {}).get("variants", []) for fl in v.get("fields", []) if fl.get("ty") is not None and f.types[fl["ty"]]["s"] == "bool"]
+
+    def cs_(b, fld, val):
+        return [i for i, j, st in T.stores_to_field(b, fld) if not b.is_cleanup(i) and st["rv"]["r"] == "use" and T.const_value(b, st["rv"]["o"], 8) == val]
+
+    flags = {fl for fl in bool_fields if cs_(rg, fl, 1) and cs_(ur, fl, 0)}
+    out = []
+    for sw in T.switches_on_expr(db, lambda e: e[0] in ("place", "call")):
+        kind, aps = T.switch_reads(db, sw)
+        if kind != "place":
+            continue
+        names = {x[1:] for root, path in aps for x in path[-1:] if isinstance(x, str) and x.startswith(".")}
+        if names & flags:
+            out += T.edges_of_value(db, sw, want)
+    return out
